@@ -1305,7 +1305,7 @@ def rewrite_blockwise(inputs):
 
     # Our final results.  These will change during fusion below
     indices = list(inputs[root].indices)
-    new_axes = inputs[root].new_axes
+    new_axes = dict(inputs[root].new_axes)
     concatenate = inputs[root].concatenate
     task = inputs[root].task
     dsk = {task.key: task}
@@ -1510,7 +1510,12 @@ def _make_dims(indices, numblocks, new_axes):
     """
     dims = broadcast_dimensions(indices, numblocks)
     for k, v in new_axes.items():
-        dims[k] = len(v) if isinstance(v, tuple) else 1
+        n = len(v) if isinstance(v, tuple) else 1
+        # A single-block new axis broadcasts against the blocks that other
+        # arguments have along the same index (this happens when the layer
+        # that created the axis has been fused into this one).
+        if n > 1 or dims.get(k, 1) == 1:
+            dims[k] = n
     return dims
 
 
